@@ -28,6 +28,7 @@ type ctx struct {
 	Fabio  string
 	Args   []string
 	Scale  float64
+	Out    string
 }
 
 func (c *ctx) thorough() bool { return c.Tier == "thorough" }
@@ -83,7 +84,7 @@ func main() {
 	debug.SetTraceback("all")
 	log.SetOutput(io.Discard) // fabio logs through the std logger; monitors that need the log install their own writer
 	c := &ctx{R: rep.New(p.property, name, *seed, *tier), Seed: *seed, Tier: *tier, Dir: *dir,
-		Replay: *replay, Batch: *batch, Fabio: *fabio, Args: fs.Args(), Scale: *scale}
+		Replay: *replay, Batch: *batch, Fabio: *fabio, Args: fs.Args(), Scale: *scale, Out: *out}
 	c.R.SetCounter("gomaxprocs", int64(runtime.GOMAXPROCS(0)))
 	p.fn(c)
 	if *out != "" {
